@@ -512,7 +512,8 @@ def vs_shard(spec, res, rng):
             if ok:
                 vs_region_judge(res, "vs-" + op, desc, r, {rg: itertools.product(ms, gb) for rg, ms in gm.items()}, lambda a, b: None if sem == "urem" and b == 0 else bvsem.bvop(sem, a, b, w))
         elif op in ("subvs", "union", "widen", "intersection", "eq"):
-            regs2 = {r: pick() for r in (list(regs) if op == "subvs" or rng.random() < 0.6 else rng.sample(REGIONS, rng.choice([1, 2])))}
+            # (the same regions are put into the second set in another order: dictionaries remember insertion order)
+            regs2 = {r: pick() for r in (rng.sample(list(regs), len(regs)) if op == "subvs" or rng.random() < 0.6 else rng.sample(REGIONS, rng.choice([1, 2])))}
             if op == "eq" and rng.random() < 0.4:
                 # the same offsets in a subset (or superset) of the regions: the comparison hinges on the regions
                 regs2 = {r: regs[r] for r in rng.sample(list(regs), rng.randrange(1, len(regs) + 1))}
